@@ -550,6 +550,7 @@ R6_TAILS = [
     (r'\.\s*windows\s*\(\s*2\s*\)\s*\.\s*any\s*\(', 'vf_adjacent_any'),
     (r'\.\s*iter\s*\(\s*\)\s*\.\s*any\s*\(', 'vf_any'),
     (r'\.\s*into_iter\s*\(\s*\)\s*\.\s*all\s*\(', 'vf_all_owned'),
+    (r'\.\s*into_iter\s*\(\s*\)\s*\.\s*find\s*\(', 'vf_find_owned'),
     (r'\.\s*iter\s*\(\s*\)\s*\.\s*flat_map\s*\(', 'vf_flat_map', r'\)\s*\.\s*collect\s*::\s*<\s*Vec\s*<\s*_\s*>\s*>\s*\(\s*\)'),
     (r'\.\s*into_iter\s*\(\s*\)\s*\.\s*filter_map\s*\(', 'vf_filter_map_owned', r'\)\s*\.\s*collect\s*(::\s*<\s*Vec\s*<\s*_\s*>\s*>)?\s*\(\s*\)'),
 ]
